@@ -30,6 +30,12 @@ class Loop:
         self.body = self.loop.body
         # single-assignment locals of the loop body (renames, hoisted sub-expressions); state variables are never substituted
         self.env = N.local_env(self.body, fn, exclude=STATE)
+        pre = []
+        for st in fn.body:                    # hoisted look-ups before the loop (e.g. the sampler's volume_indices mapping)
+            if st is self.loop:
+                break
+            pre.append(st)
+        self.env.update(N.local_env(pre, fn, exclude=STATE))
         self._find_parts()
         for _, st in self.tgt_ifs:            # what is computed only when the target is requested (e.g. `target_abs`)
             self.env.update(N.local_env(st.body, fn, exclude=STATE))
@@ -42,7 +48,7 @@ class Loop:
         e = N.inline_helpers(e, self.tree)
         e = N.subst(e, env)
         e = N.inline_helpers(e, self.tree)
-        return N.canon(e)
+        return N.keywords_by_signature(N.canon(e), self.tree)
 
     def text(self, e, extra=None) -> str:
         return ast.unparse(self.abbrev_ast(self.resolve(e, extra)))
@@ -122,7 +128,26 @@ class Loop:
         walk(st.body, [])
         if not out:
             raise Untranslatable("no yield found")
-        return out
+        # `(a, *((t,) if c else ()), b)` == `(a, t, b) if c else (a, b)`
+        final = []
+        for cond, v, env_ in out:
+            v = self.resolve(v, env_)
+            split = None
+            if isinstance(v, ast.Tuple):
+                for i, e in enumerate(v.elts):
+                    if isinstance(e, ast.Starred) and isinstance(e.value, ast.IfExp) \
+                            and isinstance(e.value.body, ast.Tuple) and isinstance(e.value.orelse, ast.Tuple):
+                        split = (i, e.value)
+                        break
+            if split is None:
+                final.append((cond, v, {}))
+            else:
+                i, ife = split
+                c = ast.unparse(ife.test)
+                for cc, branch in ((c, ife.body), (N.norm_expr(N.negate(ife.test)), ife.orelse)):
+                    t = ast.Tuple(elts=v.elts[:i] + branch.elts + v.elts[i + 1:], ctx=ast.Load())
+                    final.append((" and ".join([x for x in (cond, cc) if x]), ast.fix_missing_locations(t), {}))
+        return final
 
     def _find_roles(self):
         self.roles = []
@@ -138,7 +163,7 @@ class Loop:
             return e
         out_e = self.resolve(strip_cpu(self.vol_write[1].value))
         out_t = ast.unparse(out_e)
-        tgt_t = ast.unparse(self.resolve(strip_cpu(self.tgt_write[1].value))) if self.tgt_write else ""
+        tgt_t = ast.unparse(N.assume(self.resolve(strip_cpu(self.tgt_write[1].value)), "add_target")) if self.tgt_write else ""
         iter_t = scale_t = res_t = ""
         for n in ast.walk(out_e):
             if isinstance(n, ast.Call) and ast.unparse(n.func).endswith("_do_iteration"):
@@ -255,8 +280,8 @@ class Loop:
         f += [f"{k}={v}" for k, v in self.role_defs.items() if k in ("FILENAME", "ITER", "SCALE", "RES", "OUT")]
         _, al = self.alloc
         for s in al.body:
-            if isinstance(s, ast.Assign) and ast.unparse(s.targets[0]) in ("volume_size", "curr_volume"):
-                f.append(f"alloc {ast.unparse(s.targets[0])}={self.text(s.value)}")
+            if isinstance(s, ast.Assign) and {ast.unparse(t) for t in s.targets} & {"volume_size", "curr_volume"}:
+                f.append(f"alloc {'='.join(ast.unparse(t) for t in s.targets)}={self.text(s.value)}")
         lo, hi = self.write_slice()
         f.append(f"write curr_volume[{ast.unparse(lo)}:{ast.unparse(hi)}]={self.text(self.vol_write[1].value)}")
         f.append("slice_counter:=" + ast.unparse(self.counter_next()))
@@ -278,17 +303,34 @@ class Loop:
         f = ["init[" + self.pre_loop({"curr_target", "loss_dict_list"}) + "]"]
         f.append("TGT=" + self.role_defs["TGT"])
         _, al = self.alloc
+        fresh = None          # canonical text of the fresh zero buffer just bound to curr_volume (nothing written to it yet)
+
+        def buffer(e) -> str:
+            """`curr_volume.clone()`, `torch.zeros_like(curr_volume)` and a second identical `torch.zeros(...)` right after
+            curr_volume was bound to fresh zeros all denote a NEW zero tensor of the same shape and dtype"""
+            t = self.text(e)
+            if fresh is not None and t in ("curr_volume.clone()", "torch.zeros_like(curr_volume)", fresh,
+                                           "curr_volume.clone().zero_()", "curr_volume.new_zeros(curr_volume.shape)"):
+                return "a fresh zero buffer like curr_volume (distinct tensor)"
+            return t
         for s in al.body:
-            if isinstance(s, ast.Assign) and ast.unparse(s.targets[0]) in ("volume_size", "curr_volume"):
-                continue
-            if isinstance(s, ast.If):
+            if isinstance(s, ast.Assign):
+                tg = [ast.unparse(t) for t in s.targets]
+                if "curr_volume" in tg:
+                    v = self.text(s.value)
+                    fresh = v if v.startswith("torch.zeros(") and len(tg) == 1 else None
+                if len(tg) > 1 and set(tg) & {"curr_target", "loss_dict_list"}:
+                    f.append(f"alloc {'='.join(tg)} bound to ONE object: {self.text(s.value)}")
+                    continue
+                if tg[0] in ("volume_size", "curr_volume"):
+                    continue
+                f.append(f"alloc {tg[0]}={buffer(s.value)}")
+            elif isinstance(s, ast.If):
                 c = N.norm_expr(s.test)
-                f += [f"alloc if {c}: {ast.unparse(x.targets[0])}={self.text(x.value)}" if isinstance(x, ast.Assign)
+                f += [f"alloc if {c}: {ast.unparse(x.targets[0])}={buffer(x.value)}" if isinstance(x, ast.Assign) and len(x.targets) == 1
                       else f"alloc if {c}: {self.text(x.value) if isinstance(x, ast.Expr) else ast.unparse(x)[:80]}" for x in s.body]
             elif isinstance(s, ast.Expr):
                 f.append("alloc " + self.text(s.value))
-            elif isinstance(s, ast.Assign):
-                f.append(f"alloc {ast.unparse(s.targets[0])}={self.text(s.value)}")
             else:
                 f.append("alloc other: " + ast.unparse(s)[:80])
         if self.tgt_write:
@@ -296,7 +338,7 @@ class Loop:
             lo, hi = self.write_slice()
             same = ast.unparse(t.slice) == ast.unparse(self.resolve(self.vol_write[1].targets[0]).slice)
             f.append("if add_target: write curr_target[" + ("same window as curr_volume" if same else ast.unparse(self.abbrev_ast(t)))
-                     + "]=" + self.text(self.tgt_write[1].value))
+                     + "]=" + ast.unparse(self.abbrev_ast(N.assume(self.resolve(self.tgt_write[1].value), "add_target"))))
         for c, y, env in self.yields():
             f.append(f"yield when {c or 'always'}: {self.text(y, env)}")
         f += ["other: " + ast.unparse(st)[:100].replace("\n", " ") for _, st in self.others
